@@ -5,3 +5,4 @@ import Rbacx.Spec.Combining
 import Rbacx.Spec.Operators
 import Rbacx.Properties.C02
 import Rbacx.Properties.C04
+import Rbacx.Properties.C05
